@@ -1,5 +1,6 @@
 #!/bin/bash
-# re-verification after the last changes: all seeded defects, the twin/C06 mutants, then a 6-seed soak
-tools/seeded_all.sh 2>&1
+# re-verification after the last changes: a 4-seed soak first (false alarms matter most), then all
+# seeded defects (reduced run counts), then the twin/C06 mutants
+tools/soak.sh "C01 C04 C05 C06 C07 C08 C09 C14 C17" "1 2 3 4" quick
+SEEDED_RUNS=${SEEDED_RUNS:-700} tools/seeded_all.sh 2>&1
 for m in c04_ c05_ c06_; do tools/mutants.py --only $m --runs 400 2>&1 | grep -v '^ "\|^{\|^}'; done
-tools/soak.sh "C01 C04 C05 C06 C07 C08 C09 C14 C17" "1 2 3 4 5 6" quick
